@@ -160,6 +160,46 @@ func eapPacket(r *prng.Rand, code byte, n, lf int) []byte {
 	return b
 }
 
+// eapAttrPacket builds an EAP packet of an attribute-carrying method (EAP-AKA 23,
+// EAP-AKA' 50, EAP-SIM 18): code, identifier, length, method, subtype, 2 reserved
+// octets, then attributes (type, length in units of 4 octets, value). variant picks
+// the shape of the attribute list: 0 well formed, 1 one attribute of length 0,
+// 2 last attribute runs past the packet, 3 one octet of attribute header at the
+// end, 4 only attributes of the maximal length, 5 zero-length attribute first.
+func eapAttrPacket(r *prng.Rand, code, method byte, variant int) []byte {
+	b := []byte{code, r.Byte(), 0, 0, method, byte(1 + r.Intn(14)), 0, 0}
+	attr := func(units int) {
+		b = append(b, byte(1+r.Intn(23)), byte(units))
+		if units > 0 {
+			b = append(b, r.Bytes(4*units-2)...)
+		}
+	}
+	switch variant % 6 {
+	case 0:
+		for n := r.Range(1, 4); n > 0; n-- {
+			attr(r.Range(1, 5))
+		}
+	case 1:
+		attr(r.Range(1, 3))
+		attr(0)
+		b = append(b, r.Bytes(2+4*r.Intn(3))...)
+	case 2:
+		attr(r.Range(1, 3))
+		b = append(b, byte(1+r.Intn(23)), byte(r.Range(3, 60)), 0, 0)
+	case 3:
+		attr(r.Range(1, 3))
+		b = append(b, byte(1+r.Intn(23)))
+	case 4:
+		attr(63)
+	case 5:
+		attr(0)
+		b = append(b, 0, 0)
+		attr(r.Range(1, 3))
+	}
+	b[2], b[3] = byte(len(b)>>8), byte(len(b))
+	return b
+}
+
 // pppUnit builds one configuration protocol unit (id, len, contents) whose
 // contents are a PPP packet (code, identifier, length, data) of pl octets,
 // followed by pad octets of zero or non-zero padding.
@@ -387,6 +427,14 @@ func domainPDUs(sp *refcodec.Spec, msgs []*refcodec.Msg, r *prng.Rand, thorough 
 						for _, lf := range []int{n, 4, n - 1, n + 1, 0, 5, 0xffff} {
 							b, cn := withSlot(def, r, si, eapPacket(r, byte(code), n, lf), (code+n)%2)
 							add(def, "eap", b, cn)
+						}
+					}
+				}
+				for code := byte(1); code <= 2; code++ {
+					for _, method := range []byte{23, 50, 18} {
+						for variant := 0; variant < 6; variant++ {
+							b, cn := withSlot(def, r, si, eapAttrPacket(r, code, method, variant), variant%2)
+							add(def, "eap-attributes", b, cn)
 						}
 					}
 				}
